@@ -88,6 +88,8 @@ def directed(rng):
         # a server-initiated call that fails validation and carries the id of a pending request of ours is not that request's reply
         add('badcall-collide-%d' % v, {'callback': bool(v % 2)}, [op('o1'), op('o2', 'batch', [False, False]), D, peer(('badcall', 1 + v, False)), D, peer(('badcall', 2, False), R(3, e)), D,
                                                                  peer(R(1), R(2)), D] + ([dict(a='cbret', id=str(1 + v)), dict(a='cbret', id='2'), D] if v % 2 else []))
+        # the id "1" (a string) is not the id 1 (a number)
+        add('string-id-%d' % v, {}, [op('o1'), op('o2', 'batch', [False, False]), D, peer(('strid', 1, False)), D, peer(('strid', 2 + v % 2, False), R(3, e)), D, peer(R(2), R(1)), D])
         add('cancel-%d' % v, {}, [op('o1'), op('o2'), D, dict(a='ctxend', op='o1'), D, peer(R(1)), peer(R(2, e)), D])
         add('cancel-race-%d' % v, {}, [op('o1'), D, dict(a='ctxend', op='o1'), peer(R(1)), D])
         add('deadline-%d' % v, {}, [op('o1', ctxkind='deadline'), op('o2', 'batch', [False, False]), D, dict(a='ctxend', op='o1'), D, peer(R(2), R(3)), D])
